@@ -52,7 +52,7 @@ def gen(c, n, A, cmode, amode):
     else:
         # availability is given explicitly; the labels only feed the aggregated y of the inner strategy:
         # three representative patterns
-        pat = c.choose([(0, True), (2, True)] if amode == "matrix" else [(0, True), (1, True), (2, True)], "label_pattern")
+        pat = c.choose([(0, True), (2, True)] if amode.startswith("matrix") else [(0, True), (1, True), (2, True)], "label_pattern")
         if pat == 1:
             lab[0, 0] = 1
         elif pat == 2:
@@ -97,7 +97,9 @@ def gen(c, n, A, cmode, amode):
         for i in range(nrows_for_matrix):
             for a in range(A):
                 M[i, a] = bool(c.choose([(1, True), (0, True)], f"avail[{i},{a}]"))
-        s.annot = arrays.SymNd(M)
+        # "matrix01": the same availability given as a 0/1 integer matrix (documented as array-like of booleans; the
+        # library converts it)
+        s.annot = arrays.SymNd(M.astype(int) if amode == "matrix01" else M)
         rec(c, "avail", M.tolist())
         if cmode == "idx":
             srt = sorted(rows)  # the matrix rows correspond to the (sorted, unique) candidate indices
@@ -135,7 +137,7 @@ def real_gen(inputs, n, A, cmode, amode):
         avail = {(i, a) for i in rows for a in set(s.annot)}
     else:
         M = np.array(inputs["avail"], dtype=bool)
-        s.annot = M
+        s.annot = M.astype(int) if amode == "matrix01" else M
         if cmode == "idx":
             avail = {(rows[i], a) for i in range(len(rows)) for a in range(A) if M[i, a]}
         else:
@@ -274,7 +276,7 @@ def replay_saw(inputs, label, n, A, cmode, amode, b, napp, perf, enc="float", in
         if label in env.violated:
             return True, (f"SingleAnnotatorWrapper(UncertaintySampling, random_state={seed}, labels={enc}).query(X={s.X.ravel().tolist()}, "
                           f"y labeled mask={s.lab.tolist()}, candidates={s.cand if cmode != 'rows' else 'rows'}, annotators="
-                          f"{s.annot if amode != 'matrix' else np.asarray(s.annot).tolist()}, batch_size={b}, "
+                          f"{s.annot if not amode.startswith('matrix') else np.asarray(s.annot).tolist()}, batch_size={b}, "
                           f"n_annotators_per_sample={napp}): {label} {env.violated[label]}")
     return False, "not reproduced"
 
@@ -325,7 +327,7 @@ def replay_iet(inputs, label, n, A, cmode, amode, b, enc="float"):
         if label in env.violated:
             return True, (f"IntervalEstimationThreshold(random_state={seed}, labels={enc}).query(X={s.X.ravel().tolist()}, y labeled mask="
                           f"{s.lab.tolist()}, candidates={s.cand if cmode != 'rows' else 'rows'}, annotators="
-                          f"{s.annot if amode != 'matrix' else np.asarray(s.annot).tolist()}, batch_size={b}): {label} {env.violated[label]}")
+                          f"{s.annot if not amode.startswith('matrix') else np.asarray(s.annot).tolist()}, batch_size={b}): {label} {env.violated[label]}")
     return False, "not reproduced"
 
 
@@ -357,6 +359,9 @@ def _cfg_saw(tier):
     # integer label matrix with the sentinel -1
     for cmode, amode in ((("none", "none"),) if tier == "quick" else (("none", "none"), ("idx", "idx"), ("rows", "matrix"))):
         out.append(dict(n=2, A=2, cmode=cmode, amode=amode, b=2, napp=1, perf=None, enc="int"))
+    # availability as a 0/1 integer matrix
+    for cmode in (("none", "idx") if tier == "quick" else ("none", "idx", "rows")):
+        out.append(dict(n=2, A=2, cmode=cmode, amode="matrix01", b=2, napp=1, perf=None))
     # three samples x two annotators: an array-valued request shorter than the number of selected samples, and a batch
     # larger than n_annotators * len(annotators) with annotator indices (n_samples != n_annotators)
     out.append(dict(n=3, A=2, cmode="none", amode="none", b=5, napp=[2, 1], perf=None))
